@@ -6,7 +6,7 @@ CONSTANTS
   Sample = @SAMPLE@
 INIT FamInit
 NEXT Next
-INVARIANTS NoStuck HeapWF AnyConcrete
+INVARIANTS NoStuck HeapWF AnyConcrete TypeSound
 PROPERTIES OutGrows
 CONSTRAINT Emit
 CHECK_DEADLOCK FALSE
